@@ -854,8 +854,26 @@ pub fn suite_cost(ctx: &mut Ctx) {
             _ => size,
         };
         let (old, new) = gen::gen_pair(&mut rng, fam, size);
+        // variants: full ranges; the same inputs embedded behind unrelated prefixes of different
+        // lengths (sub-ranges with large non-zero starts); items that hash like short strings
+        let variant = i % 3;
         for alg in [Algorithm::Myers, Algorithm::Patience] {
-            let c = Case::full(alg, &old, &new);
+            let mut c = Case::full(alg, &old, &new);
+            if variant == 1 {
+                let po = 50 + rng.below(400);
+                let pn = 20 + rng.below(300);
+                let mut o2: Vec<u32> = (0..po as u32).map(|x| 1_000_000 + x).collect();
+                let mut n2: Vec<u32> = (0..pn as u32).map(|x| 2_000_000 + (x * 7) % 1000).collect();
+                o2.extend_from_slice(&old);
+                n2.extend_from_slice(&new);
+                c = Case::full(alg, &o2, &n2);
+                c.os = po;
+                c.ns = pn;
+                ctx.count("cost.subrange_cases");
+            } else if variant == 2 {
+                c.salt = obs::STR_HASH;
+                ctx.count("cost.string_hash_cases");
+            }
             let (req, out) = emit_case(ctx, &c);
             if out.status != Status::Ok {
                 ctx.violation("C19", &req, format!("{:?}", out.status));
@@ -865,13 +883,20 @@ pub fn suite_cost(ctx: &mut Ctx) {
             let (d, ins, _) = oracle::cost(&calls);
             // D: for Myers the shortest script (its own, minimal by C03); for Patience its own script
             let dd = (d + ins) as u64;
-            let nm = (old.len() + new.len()) as u64;
+            let nm = ((c.oe - c.os) + (c.ne - c.ns)) as u64;
             let bound = COST_C * (nm + 1) * (dd + 1);
             let ratio_milli = out.cmps * 1000 / ((nm + 1) * (dd + 1));
             ctx.max(&format!("cost.max_ratio_milli.{}", alg_name(alg)), ratio_milli);
             ctx.max("cost.max_nm", nm);
             if out.cmps > bound {
                 ctx.violation("C19", &req, format!("{} comparisons > {} * (N+M+1) * (D+1) with N+M = {}, D = {}", out.cmps, COST_C, nm, dd));
+            }
+            // same-side comparisons happen only inside the hash maps of `unique`: a few per item
+            // (equal keys and rare tag collisions), never proportional to N^2
+            let same_bound = 8 * nm + 64;
+            ctx.max(&format!("cost.max_same_side_per_item_milli.{}", alg_name(alg)), out.same_cmps * 1000 / (nm + 1));
+            if out.same_cmps > same_bound {
+                ctx.violation("C19", &req, format!("{} same-side element comparisons for N+M = {} (hash-based uniqueness must stay linear)", out.same_cmps, nm));
             }
             if dd > 0 && dd * 8 < nm {
                 ctx.nontrivial(&req);
